@@ -236,6 +236,16 @@ class Sym(object):
     def __repr__(self):
         return "Sym(%s)" % z3.simplify(self.t)
 
+    def __str__(self):
+        # text made from a symbolic number is harmless in a message, but a RESULT that depends on it (keys built from digits, ...) has left
+        # the symbolic domain: the path is marked, and a failing goal on a marked path is a soft candidate (see zrun.soft_path)
+        if Ctx.cur is not None:
+            Ctx.cur.notes.append("str")
+        return self.__repr__()
+
+    def __format__(self, spec):
+        return format(self.__str__(), spec) if spec in ("", "s") or spec.endswith("s") else self.__str__()
+
     def __hash__(self):
         return hash(self.t)
 
